@@ -234,6 +234,17 @@ class TapeRecorder(object):
         if self._active_recording is None:
             return
 
+        # Copy what was sent to an intercepted output as well when the operation class asks to copy intercepted
+        # values (the operation's own result is recorded right before the recording is finalized, no need to copy it)
+        recording_parameters = self._active_recording_parameters
+        if alias != TapeRecorder.OPERATION_OUTPUT_ALIAS and recording_parameters is not None and \
+                recording_parameters.copy_data_on_intercepion:
+            try:
+                value = pickle_copy(value)
+            except Exception as ex:
+                _logger.warning(u"recorded output couldn't be copied (type={} exception={})".format(
+                    type(value), repr(ex)))
+
         self._record_data(interception_key, value)
 
     def enable_recording(self):
